@@ -89,6 +89,7 @@ def gen_graph(rng, flavour=None):
     if dup:   # duplicate id: Graph binds edges to the LAST vertex carrying it
         a, b = rng.sample(range(nv), 2)
         ids[b] = ids[a]
+        kinds[b] = kinds[a]      # same dimension, so that the scripted Jacobians fit whichever vertex gets bound
     pat = rng.choice(['none', 'one', 'several', 'all', 'random'])
     fixed = [False] * nv
     if pat == 'one':
